@@ -85,17 +85,55 @@ def run(prog, tier, extra=None):
                                 b.loc(s["bb"]), {"path": describe_path(b, path)}))
             else:
                 res.sample({"rule": R1, "site": b.loc(s["bb"]), "consumer": name, "verdict": "a failing density check reaches no accept outcome (%s)" % desc})
+    # the check may have been moved, unchanged, into a closure of validate (`new_chain.iter().all(|hash| ..)`) or a private bool helper
+    # (`self.new_chain_has_mining_support(new_chain, configs)`): then that closure's combinator / that helper's call is the verdict
+    # validate has to honour
+    density_family = []
+    if not in_validate:
+        from .c01 import COMBINATORS as _COMB
+        for b in prog.all_bodies():
+            if b.is_promoted or "::tests::" in b.path or not list(gate.verdict_sites(b, lambda n: n in DENSITY)):
+                continue
+            if b.path.startswith(bv.path + "::{closure"):
+                sites_ = [s_ for s_ in gate.verdict_sites(bv, lambda n: n in _COMB)]
+                kind_ = "closure"
+            else:
+                sites_ = [s_ for s_ in gate.verdict_sites(bv, lambda n, p_=b.path: n == p_)]
+                kind_ = "helper"
+            for s_ in sites_:
+                density_family.append((b, kind_, s_["bb"]))
+                in_validate += 1
+                res.instance(R1)
+                acc_ = gate.make_accept(bv, tuple0_true=True, effects=("Blockchain::wind_chain", "Blockchain::unwind_chain"))
+                found_, _ex = gate.check_gate(bv, s_, acc_, prog.units) if s_["local"] is not None else ({"unbound": []}, None)
+                if found_:
+                    res.add(Finding(R1, "C05.gate|density", "Blockchain::validate continues although the golden-ticket density check (made in %s) failed" % b.path.replace(CORE, ""), bv.loc(s_["bb"])))
     if not in_validate:
         res.add(Finding(R1, "C05.gate|density-missing", "Blockchain::validate no longer evaluates the golden-ticket density of the candidate chain", bv.loc(0)))
 
     # R4: the density rule is evaluated at the candidate tip: the window handed to is_golden_ticket_count_valid starts at the
     # parent of new_chain[0] (the chain slices are ordered tip first) and the "has ticket" flag is that block's own
-    chv = Chaser(bv)
-    for bb, t in bv.calls():
+    anchor_bodies = [(bv, None)] + [(b_, (k_, sb_)) for (b_, k_, sb_) in density_family]
+    for abody, fam in anchor_bodies:
+      chv = Chaser(abody)
+      chv_outer = Chaser(bv)
+      for bb, t in abody.calls():
         if call_name(t) != BC + "is_golden_ticket_count_valid":
             continue
         res.instance(R4)
         args = [chv.origin(a) for a in t["args"]]
+        if fam is not None and fam[0] == "closure":
+            # `new_chain.iter().all(|hash| ..)`: every element, if the receiver of the combinator is an un-thinned iterator over new_chain
+            it_ = chv_outer.origin(bv.term(fam[1])["args"][0]) if bv.term(fam[1]).get("args") else ("unknown",)
+            names_ = [y for y in walk(it_) if (y[0] == "param" and (y[2] or "") == "new_chain") or (y[0] == "field" and y[3] == "new_chain")]
+            thin_ = [y for y in walk(it_) if y[0] in ("call", "via") and y[1].rsplit("::", 1)[-1] in ("skip", "take", "step_by", "filter", "skip_while", "take_while", "nth", "last", "filter_map")]
+            if names_ and not thin_ and any(has_field(a, "block::Block", "previous_block_hash") for a in args) and any(has_field(a, "block::Block", "has_golden_ticket") for a in args):
+                res.sample({"rule": R4, "site": abody.loc(bb), "verdict": "evaluated for every element of new_chain (combinator over the whole slice)"})
+            else:
+                res.add(Finding(R4, "C05.density-anchor", "Blockchain::validate does not evaluate the golden-ticket density for every block of the candidate chain", abody.loc(bb)))
+            continue
+        bv_saved = bv
+        bv = abody
 
         def from_tip(e, field):
             ok_field = has_field(e, "block::Block", field)
@@ -140,6 +178,7 @@ def run(prog, tier, extra=None):
         else:
             res.sample({"rule": R4, "site": bv.loc(bb), "window_starts_at": show(a_hash)[:80], "verdict": "anchored at new_chain[0]"})
 
+    bv = prog.body(BC + "validate::{closure#0}")
     # R2
     lc = prog.body(BC + "is_new_chain_the_longest_chain")
     if lc is None:
@@ -390,6 +429,9 @@ def run(prog, tier, extra=None):
             if b.ty(0)["s"] != "bool":
                 continue
             pts = {bb for bb, t in b.calls() if _generic(t.get("res") or t.get("callee") or "") in names}
+            # a wrapper that asks for every element of a collection (`for hash in new_chain { if !self.density(..) { return false } } true`)
+            # says true for an empty collection without calling: its "walk point" is the loop, not the call
+            pts = {(b.innermost_loop_containing([x]) if b.innermost_loop_containing([x]) is not None else x) for x in pts}
             if pts:
                 chain[b.path] = pts
     for pth, pts in sorted(chain.items()):
